@@ -403,6 +403,7 @@ def _scalars(bp, res: Result, shard):
                 vals = [norm_leaf(fi.kind, v) for v in scalar_bounds(fi.kind)]
                 vals += [norm_leaf(fi.kind, rand_scalar(rng, fi.kind)) for _ in range(shard["n"])]
                 if fi.kind in ("float", "double"):
+                    _float_specials(b, bpk, refk, mi, fi, label, res, mname, shard)
                     # +0.0 first, then -0.0 (equal and equally hashed, other bytes), then +0.0 again -- given raw, the
                     # value normaliser of the other checks folds the two zeros together
                     vals = [0.0, -0.0, 0.0, -0.0] + vals
@@ -437,6 +438,15 @@ def _scalars(bp, res: Result, shard):
                         exp = spec.enc_scalar_field(fi.number, fi.kind, pv)
                     res.counters["scalar_cases"] += 1
                     res.case(f"{fi.kind}/{label}/{v!r}")
+                    try:
+                        if len(m) != len(got):
+                            res.violation("scalar-bytes", [fi.kind, label, "len-differs-from-encoding"], f"{fi.kind} {label} value {v!r}: len(m)={len(m)} len(bytes(m))={len(got)}",
+                                          {"kind": "scalar", "msg": mname, "number": fi.number, "label": label, "value": _enc(v),
+                                           "shard": {"kind": "scalars", "seed": shard["seed"], "n": shard["n"]}})
+                    except Exception as e:
+                        res.violation("scalar-bytes", [fi.kind, label, "len-raised:" + type(e).__name__], f"{fi.kind} {label} value {v!r}: {e!r}",
+                                      {"kind": "scalar", "msg": mname, "number": fi.number, "label": label, "value": _enc(v),
+                                       "shard": {"kind": "scalars", "seed": shard["seed"], "n": shard["n"]}})
                     if got != ref or got != exp:
                         # NaN payload bits may legitimately differ only if python changes them; compare exactly anyway
                         res.violation("scalar-bytes", [fi.kind, label, "negative-zero-omitted" if (negzero and got == b"") else ("negative-zero" if negzero else "bytes-differ")],
@@ -447,6 +457,55 @@ def _scalars(bp, res: Result, shard):
                     res.sample({"kind": fi.kind, "label": label, "value": repr(vals[-1]), "bytes": got.hex()})
     finally:
         b.cleanup()
+
+
+def _float_specials(b, bpk, refk, mi, fi, label, res: Result, mname, shard):
+    """(a) Python ints / bools given to a float or double field encode like the equal float (the reference accepts them
+    too); (b) NaNs arriving from the wire with a sign bit or a payload keep their bits through decode -> encode"""
+    from ..values import attr_names
+
+    cls = b.bp_class(mi.full_name)
+    rcls = b.ref_class(mi.full_name)
+    nm = attr_names(cls)[fi.number]
+    wsh = {"kind": "scalar", "msg": mname, "number": fi.number, "label": label, "value": {"$f": "0x0.0p+0"},
+           "shard": {"kind": "scalars", "seed": shard["seed"], "n": shard["n"]}}
+    for iv in (3, -1, 2**24, True, 10**15):
+        if fi.kind == "float" and isinstance(iv, int) and abs(iv) > 2**24:
+            continue
+        val = [iv, iv] if label == "repeated" else iv
+        res.counters["scalar_cases"] += 1
+        try:
+            got = bytes(cls(**{nm: val}))
+            r = rcls()
+            if label == "repeated":
+                getattr(r, fi.name).extend([float(iv), float(iv)])
+            else:
+                setattr(r, fi.name, float(iv))
+            ref = r.SerializeToString()
+        except Exception as e:
+            res.violation("scalar-bytes", [fi.kind, label, "int-valued-float:raised:" + type(e).__name__], f"{fi.kind} {label} = {iv!r}: {e!r}", wsh)
+            continue
+        if got != ref:
+            res.violation("scalar-bytes", [fi.kind, label, "int-valued-float:bytes-differ"],
+                          f"{fi.kind} {label} field given the Python {type(iv).__name__} {iv!r}: betterproto {got.hex()} reference (for {float(iv)!r}) {ref.hex()}", wsh)
+    pats = ([0xFFC00000, 0x7FC00001, 0xFFC12345] if fi.kind == "float" else [0xFFF8000000000000, 0x7FF8000000000001, 0xFFF80000DEADBEEF])
+    width = 4 if fi.kind == "float" else 8
+    for pat in pats:
+        payload = pat.to_bytes(width, "little")
+        if label == "repeated":
+            data = spec.enc_tag(fi.number, 2) + spec.enc_varint(2 * width) + payload * 2
+        else:
+            data = spec.enc_tag(fi.number, 5 if width == 4 else 1) + payload
+        res.counters["scalar_cases"] += 1
+        try:
+            again = bytes(cls().parse(data))
+            ref_again = rcls.FromString(data).SerializeToString()
+        except Exception as e:
+            res.violation("scalar-bytes", [fi.kind, label, "nan-bits:raised:" + type(e).__name__], f"{fi.kind} {label} NaN {pat:#x}: {e!r}", wsh)
+            continue
+        if again != data and ref_again == data:
+            res.violation("scalar-bytes", [fi.kind, label, "nan-bits-changed"],
+                          f"{fi.kind} {label}: NaN bits {pat:#x} decoded and encoded again give {again.hex()} (reference keeps {data.hex()})", wsh)
 
 
 def _enc(v):
